@@ -144,7 +144,7 @@ CHECKS = {
             'each backend method every placement of 0 and 1 (thorough: also 2) documented "no result" answers among the first K=12 '
             '(thorough 40; pairs among 16) interceptable calls, on binary and ternary, both iterators, empty and preloaded PSD.',
             'Analytic backends; a fault is None for getGrowthAndInterfacialComposition, the previous/None impingement factor, (None, None) '
-            'for getDrivingForce and the -1 marker for getInterfacialComposition; horizon 8000 (jumps 20000) steps = non-termination. '
+            'for getDrivingForce and the -1 marker for getInterfacialComposition; horizon 40000 steps (temperature jumps 20000, fault runs 12000) = non-termination; terminating runs of the products need at most 9533. '
             'KNOWN FINDING: ternary/RK4/temperature jump stays at the minimum step (recorded).',
             '2/C03'),
     'C18': ('model_checking',
